@@ -76,6 +76,9 @@ def _cond_def(prog: dict, c: int, role: str, owner: int, params: List[str], inde
     if con["err"] in ("factory", "badfactory"):
         lines.append("{}def errf_{}({}):".format(indent, c, esig))
         lines.append("{}    return H.errf({}, {!r}, {}, {})".format(indent, c, role, owner, ekw))
+        if prog.get("errf_wrapped"):
+            # the factory went through an ordinary functools.wraps decorator (logging, counting, ...)
+            lines.append("{}errf_{} = H.wrapped(errf_{})".format(indent, c, c))
     if con["err"] == "class":
         lines.append("{}class ErrClass_{}({}):".format(indent, c, "BaseException" if prog.get("errbase") else "Exception"))
         lines.append("{}    pass".format(indent))
